@@ -30,6 +30,11 @@ pub fn candidates(prop: &str) -> Vec<Value> {
                 v.push(json!({"call": "keygen", "group": g, "kind": kind}));
             }}
         }
+        "C18" | "C11" | "C13" => {
+            for g in ["G1", "G2"] { for sch in ["Basic", "MessageAugmentation", "ProofOfPossession"] { for kind in ["sc_lib_to_ref", "sc_ref_to_lib", "tc_lib_to_ref"] {
+                v.push(json!({"call": "interop", "group": g, "scheme": sch, "kind": kind}));
+            }}}
+        }
         "C20" => {
             for g in ["G1", "G2"] { for kind in ["sequence", "threads"] {
                 v.push(json!({"call": "fresh", "group": g, "kind": kind}));
@@ -53,6 +58,7 @@ pub fn run(c: &Value) -> Option<Option<String>> {
         "total" => by_group!(c, total),
         "keygen" => by_group!(c, keygen),
         "fresh" => by_group!(c, fresh),
+        "interop" => by_group!(c, interop),
         _ => return None,
     })
 }
@@ -495,6 +501,70 @@ fn fresh<C: BlsSignatureImpl + PartialEq + Copy + Send + Sync + 'static>(c: &Val
             let hs: Vec<std::thread::JoinHandle<Vec<(String, Vec<u8>)>>> = (0..4).map(|_| std::thread::spawn(|| { let s = sample::<C>(); ephemerals(&s, 16) })).collect();
             let mut all = vec![]; for h in hs { all.extend(h.join().ok()?); }
             first_repeat(&all).map(|k| format!("{}: the same ephemeral value was produced on two different threads", k))
+        }
+    }
+}
+
+// ----- C18: an independent implementation of the documented constructions --------------------------
+fn shake128(input: &[u8], n: usize) -> Vec<u8> {
+    use sha3::digest::{ExtendableOutput, Update, XofReader};
+    let mut h = sha3::Shake128::default(); h.update(input); let mut r = h.finalize_xof(); let mut o = vec![0u8; n]; r.read(&mut o); o
+}
+fn xor(a: &[u8], b: &[u8]) -> Vec<u8> { assert_eq!(a.len(), b.len()); (0..a.len()).map(|i| a[i] ^ b[i]).collect() }
+/// LEB128 prefix: (value, bytes used)
+fn unleb(b: &[u8]) -> Option<(u128, usize)> {
+    let mut v: u128 = 0; let mut shift = 0u32;
+    for (i, x) in b.iter().enumerate() { if shift >= 128 { return None; } v |= ((x & 0x7f) as u128) << shift; if x & 0x80 == 0 { return Some((v, i + 1)); } shift += 7; }
+    None
+}
+fn frame(m: &[u8]) -> Vec<u8> { let mut f = leb(m.len() as u128); f.extend_from_slice(m); while f.len() < 32 { f.push(0); } f }
+fn unframe(p: &[u8]) -> Option<Vec<u8>> { let (l, k) = unleb(p)?; let l = l as usize; if l <= p.len() - k { Some(p[k..k + l].to_vec()) } else { None } }
+fn dst_of<C: BlsSignatureImpl>(s: SignatureSchemes) -> &'static [u8] {
+    match s { SignatureSchemes::Basic => <C as BlsSignatureBasic>::DST, SignatureSchemes::MessageAugmentation => <C as BlsSignatureMessageAugmentation>::DST, SignatureSchemes::ProofOfPossession => <C as BlsSignaturePop>::SIG_DST }
+}
+fn interop<C: BlsSignatureImpl + PartialEq + Copy + Send + Sync + 'static>(c: &Value) -> Option<String> {
+    let s = sample::<C>();
+    let sch = match c["scheme"].as_str().unwrap_or("") { "Basic" => SignatureSchemes::Basic, "MessageAugmentation" => SignatureSchemes::MessageAugmentation, _ => SignatureSchemes::ProofOfPossession };
+    let lens: Vec<usize> = (0..=80).chain([100usize, 127, 128, 129, 255, 256, 257, 1000]).collect();
+    let msg = |l: usize| -> Vec<u8> { (0..l).map(|i| (i * 13 + 5) as u8).collect() };
+    match c["kind"].as_str().unwrap() {
+        "sc_lib_to_ref" => {
+            for l in lens { let m = msg(l);
+                let ct = s.pk.sign_crypt(sch, &m);
+                let p = ct.u * s.sk.0;
+                let plain = xor(&ct.v, &shake128(p.to_bytes().as_ref(), ct.v.len()));
+                if ct.v.len() != frame(&m).len() { return Some(format!("signcryption payload of a {}-byte message has {} bytes, the documented framing gives {}", l, ct.v.len(), frame(&m).len())); }
+                if unframe(&plain) != Some(m.clone()) { return Some(format!("the reference opener does not recover a {}-byte message sealed by the library", l)); }
+            }
+            None
+        }
+        "sc_ref_to_lib" => {
+            for l in lens { let m = msg(l);
+                let r = SecretKey::<C>::from_hash(&[b"ephemeral".as_slice(), &m].concat()).0;
+                let u = <C as Pairing>::PublicKey::generator() * r;
+                let f = frame(&m);
+                let v = xor(&f, &shake128((s.pk.0 * r).to_bytes().as_ref(), f.len()));
+                let mut t = u.to_bytes().as_ref().to_vec(); t.extend_from_slice(&v);
+                let w = <C as HashToPoint>::hash_to_point(t.as_slice(), dst_of::<C>(sch)) * r;
+                let ct = SignCryptCiphertext::<C> { u, v, w, scheme: sch };
+                if !bool::from(ct.is_valid()) { return Some(format!("the library rejects a reference-sealed ciphertext ({} bytes, {:?})", l, sch)); }
+                match Option::<Vec<u8>>::from(ct.decrypt(&s.sk)) { Some(x) if x == m => {}, _ => return Some(format!("the library does not open a reference-sealed {}-byte message", l)) }
+            }
+            None
+        }
+        _ => {
+            for l in lens { let m = msg(l);
+                let id = b"time lock id";
+                let ct = match s.pk.encrypt_time_lock(sch, &m, id) { Ok(x) => x, Err(e) => return Some(format!("encrypt_time_lock failed: {}", e)) };
+                let sig = s.sk.sign(sch, id).ok()?;
+                let k = <C as Pairing>::pairing(&[(*sig.as_raw_value(), ct.u)]);
+                let alpha = xor(&ct.v, &sha256(k.to_bytes().as_ref()));
+                let plain = xor(&ct.w, &shake128(&alpha, ct.w.len()));
+                if ct.w.len() != frame(&m).len() { return Some(format!("time-lock payload of a {}-byte message has {} bytes, the documented framing gives {}", l, ct.w.len(), frame(&m).len())); }
+                if unframe(&plain) != Some(m.clone()) { return Some(format!("the reference opener does not recover a {}-byte time-locked message", l)); }
+                match Option::<Vec<u8>>::from(ct.decrypt(&sig)) { Some(x) if x == m => {}, _ => return Some(format!("the library does not open its own {}-byte time-lock ciphertext", l)) }
+            }
+            None
         }
     }
 }
